@@ -608,7 +608,7 @@ fn c19_pattern_case<T: DocElem>(ctx: &mut Ctx, pattern: &[usize], reps: usize) {
 
 pub fn run_c19(ctx: &mut Ctx) {
     let (maxlen, reps) = match (ctx.scale, ctx.tier) {
-        (Scale::Miri, Tier::Quick) => (3, 1),
+        (Scale::Miri, Tier::Quick) => (2, 1),
         (Scale::Miri, Tier::Thorough) => (3, 2),
         (Scale::Vg, _) => (3, 2),
         (Scale::Native, Tier::Quick) => (4, 6),
@@ -634,10 +634,20 @@ pub fn run_c19(ctx: &mut Ctx) {
     // plus the two odd keys somewhere
     patterns.push(vec![0, 1, 2, 5]);
     patterns.push(vec![6, 0, 1, 2]);
+    if maxlen < 3 {
+        // the six orders of the three fields, and a few duplications, are always present
+        for p in [[0, 1, 2], [0, 2, 1], [1, 0, 2], [1, 2, 0], [2, 0, 1], [2, 1, 0]] {
+            patterns.push(p.to_vec());
+        }
+        patterns.push(vec![0, 0, 1, 2]);
+        patterns.push(vec![0, 1, 2, 2]);
+        patterns.push(vec![0, 1, 2, 3]);
+    }
     for (pi, p) in patterns.iter().enumerate() {
         // the three-field permutations get many more repetitions: they carry the accept/reject logic
         let core = p.len() == 3 && p.contains(&0) && p.contains(&1) && p.contains(&2);
-        let reps_p = if core { reps * 40 } else if p.len() <= 3 { reps * 2 } else { reps };
+        let core_mul = if ctx.scale == Scale::Miri { 5 } else { 40 };
+        let reps_p = if core { reps * core_mul } else if p.len() <= 3 { reps * 2 } else { reps };
         for ty in 0..3 {
             if ctx.case(|| format!("C19 fields={:?} elem={}", p.iter().map(|k| KEYS[*k]).collect::<Vec<_>>(), ["u32", "String", "Option<u8>"][ty])) {
                 match ty {
